@@ -68,6 +68,15 @@ struct SimpleStringBuffer
     bool reachedItsCapacity();
 private:
     char buffer_[SIMPLE_STRING_BUFFER_LEN];
+#ifdef CPPUTEST_VERIF_HOOKS
+    char verif_canary_[16];
+public:
+    void verifInitCanary();
+    bool verifCanaryIntact() const;
+    size_t verifPositionsFilled() const { return positions_filled_; }
+    size_t verifWriteLimit() const { return write_limit_; }
+private:
+#endif
     size_t positions_filled_;
     size_t write_limit_;
 };
